@@ -10,7 +10,7 @@ Extraction "model.ml"
   lexperm_init mperm_init lexperm_next lexperm_value
   parts_init parts_next parts_value parts_rgs
   intparts_init intparts_next intparts_value
-  rpprod_init rpprod_next rpprod_value
-  rpperm_init rpperm_next rpperm_value
-  pattern_init pattern_next pattern_value
+  rpprod_init rpprod_init_with rpprod_next rpprod_value
+  rpperm_init rpperm_init_with rpperm_next rpperm_value
+  pattern_init pattern_init_with pattern_next pattern_value
   topo_init topo_next topo_value topo_inverse.
